@@ -604,6 +604,16 @@ impl From<ToolTaskStatus> for ApiToolTaskStatus {
     }
 }
 
+/// Verification-only access to the resolver applied to a task's `cwd` (compiled only with
+/// `--cfg rip_verif`; re-exported by `crate::verif`).
+#[cfg(rip_verif)]
+pub(crate) fn verif_resolve_cwd(
+    root: &std::path::Path,
+    raw: &str,
+) -> Result<std::path::PathBuf, String> {
+    logs::resolve_path(root, raw)
+}
+
 /// Verification-only direct drivers of the log writer, the range reader and the output pump
 /// (compiled only with `--cfg rip_verif`; re-exported by `crate::verif`).
 #[cfg(rip_verif)]
